@@ -55,7 +55,7 @@ type c17Case struct {
 	CapLayout int `json:"cap_layout,omitempty"`
 }
 
-var c17Prefixes = []string{"10.9.0.1/32", "10.9.0.2/32", "10.9.1.0/24", "10.9.2.128/25", "10.9.0.0/16"}
+var c17Prefixes = []string{"10.9.0.1/32", "10.9.1.0/32", "10.9.1.0/24", "10.9.2.128/25", "10.9.0.0/16"}
 
 func genC17(rt *rapid.T) c17Case {
 	c := c17Case{IBGP: rapid.Bool().Draw(rt, "ibgp"), FBASN: rapid.Bool().Draw(rt, "fbasn"), BadFirst: rapid.SampledFrom([]int{0, 0, 0, 1}).Draw(rt, "badFirst")}
@@ -593,7 +593,7 @@ func runC17(c c17Case, tr *vw.Trace) *vw.Violation {
 
 func TestVerifC17Session(t *testing.T) {
 	vw.Run(t, vw.Options{Property: "C17", Engine: "loopback-session",
-		Rule: "iBGP/eBGP x 4-byte capable peer, optionally one handshake with an unexpected ASN, 1..4 route sets over 5 prefixes (local preference, 0..2 communities, empty set), 2..10 actions: Set, peer drops the connection now / after k more UPDATEs, short sleeps, wait-for-convergence; the scripted peer's table for the current connection must equal the last requested set; non-trivial = >=1 reconnect and a withdraw or attribute-only change",
+		Rule: "iBGP/eBGP x 4-byte capable peer, optionally one handshake with an unexpected ASN, 1..4 route sets over 5 prefixes (two of them share a network address and differ in length; local preference, 0..2 communities, empty set), 2..10 actions: Set, peer drops the connection now / after k more UPDATEs, short sleeps, wait-for-convergence; the scripted peer's table for the current connection must equal the last requested set; non-trivial = >=1 reconnect and a withdraw or attribute-only change",
 		Assumptions: []string{"real time over loopback TCP: convergence normally takes < 5 ms, the wait bound is 3 s + 10 s grace; a verdict by timeout is labelled liveness-by-timeout",
 			"timing of changes relative to the sender loop is sampled by the OS scheduler, not enumerated"}},
 		genC17, runC17)
